@@ -27,18 +27,18 @@ theorem PrevOk.nil (c : Cond) : PrevOk c [] := fun p hp => by cases hp
 
 /-- how staged entries and records may change without new justification being needed -/
 structure PrevStep (c c' : Cond) : Prop where
-  staged : ∀ x' ∈ c'.st.staged, ∃ x ∈ c.st.staged, x'.prev = x.prev ∧ x'.id = x.id
+  staged : ∀ x' ∈ c'.st.staged, ∃ x ∈ c.st.staged, x'.prev = x.prev ∧ x'.id = x.id ∧ x'.ctxsIn = x.ctxsIn
   recs : ∀ (i : Nat) (r' : Rec), c'.st.sequence[i]? = some r' → ∃ r, c.st.sequence[i]? = some r ∧ r'.prev = r.prev
 
 theorem PrevStep.refl (c : Cond) : PrevStep c c :=
-  ⟨fun x hx => ⟨x, hx, rfl, rfl⟩, fun i r h => ⟨r, h, rfl⟩⟩
+  ⟨fun x hx => ⟨x, hx, rfl, rfl, rfl⟩, fun i r h => ⟨r, h, rfl⟩⟩
 
 theorem PrevStep.trans {a b c : Cond} (h1 : PrevStep a b) (h2 : PrevStep b c) : PrevStep a c := by
   refine ⟨?_, ?_⟩
   · intro x'' hx''
     obtain ⟨x', hx', e2⟩ := h2.staged x'' hx''
     obtain ⟨x, hx, e1⟩ := h1.staged x' hx'
-    exact ⟨x, hx, e2.1.trans e1.1, e2.2.trans e1.2⟩
+    exact ⟨x, hx, e2.1.trans e1.1, e2.2.1.trans e1.2.1, e2.2.2.trans e1.2.2⟩
   · intro i r'' hr''
     obtain ⟨r', hr', e2⟩ := h2.recs i r'' hr''
     obtain ⟨r, hr, e1⟩ := h1.recs i r' hr'
@@ -111,7 +111,7 @@ theorem mem_removeStaged (st : WState) (k : TaskKey) (x' : Staged) (h : x' ∈ (
 
 /-- a state update that keeps the records and only drops staged entries or updates fields other than `prev` -/
 theorem Rel.modifySt_prev {f : WState → WState}
-    (hs : ∀ st : WState, ∀ x' ∈ (f st).staged, ∃ x ∈ st.staged, x'.prev = x.prev ∧ x'.id = x.id)
+    (hs : ∀ st : WState, ∀ x' ∈ (f st).staged, ∃ x ∈ st.staged, x'.prev = x.prev ∧ x'.id = x.id ∧ x'.ctxsIn = x.ctxsIn)
     (hr : ∀ st : WState, (f st).sequence.map (·.prev) = st.sequence.map (·.prev)) : Rel prevPre (M.modifySt f) := by
   constructor
   intro c
@@ -142,15 +142,15 @@ theorem Rel.raw_prev_same {α} {m : M α} (h : ∀ c, (m c).2.st = c.st) : Rel p
   constructor
   intro c
   show PrevStep c (m c).2
-  refine ⟨fun x hx => ⟨x, by rw [h] at hx; exact hx, rfl, rfl⟩, fun i r hr => ⟨r, by rw [h] at hr; exact hr, rfl⟩⟩
+  refine ⟨fun x hx => ⟨x, by rw [h] at hx; exact hx, rfl, rfl, rfl⟩, fun i r hr => ⟨r, by rw [h] at hr; exact hr, rfl⟩⟩
 
 macro "prev_staged" : tactic => `(tactic| first
-  | (intro st x' hx'; exact ⟨x', hx', rfl, rfl⟩)
-  | (intro st x' hx'; exact ⟨x', mem_removeStaged _ _ _ hx', rfl, rfl⟩)
+  | (intro st x' hx'; exact ⟨x', hx', rfl, rfl, rfl⟩)
+  | (intro st x' hx'; exact ⟨x', mem_removeStaged _ _ _ hx', rfl, rfl, rfl⟩)
   | (intro st x' hx'
      rcases mem_updateStaged_go _ _ _ _ hx' with h | ⟨x, hx, e⟩
-     · exact ⟨x', h, rfl, rfl⟩
-     · exact ⟨x, hx, by rw [e], by rw [e]⟩))
+     · exact ⟨x', h, rfl, rfl, rfl⟩
+     · exact ⟨x, hx, by rw [e], by rw [e], by rw [e]⟩))
 
 macro "prev_recs" : tactic => `(tactic| (intro st; first
   | rfl
@@ -182,7 +182,7 @@ theorem wfProcessTaskEvent_prev (k ev) : Rel prevPre (wfProcessTaskEvent k ev) :
         · exact ⟨rfl, rfl⟩
         · rw [forEach_logError_seq]; exact ⟨rfl, rfl⟩
       · exact ⟨rfl, rfl⟩
-  refine ⟨fun x hx => ⟨x, by rw [hst.1] at hx; exact hx, rfl, rfl⟩, fun i r hr => ⟨r, by rw [hst.2] at hr; exact hr, rfl⟩⟩
+  refine ⟨fun x hx => ⟨x, by rw [hst.1] at hx; exact hx, rfl, rfl, rfl⟩, fun i r hr => ⟨r, by rw [hst.2] at hr; exact hr, rfl⟩⟩
 
 theorem wfProcessWorkflowEvent_prev (req) : Rel prevPre (wfProcessWorkflowEvent req) := by
   constructor
@@ -198,14 +198,14 @@ theorem wfProcessWorkflowEvent_prev (req) : Rel prevPre (wfProcessWorkflowEvent 
         · exact ⟨rfl, rfl⟩
         · rw [forEach_logError_seq]; exact ⟨rfl, rfl⟩
       · exact ⟨rfl, rfl⟩
-  refine ⟨fun x hx => ⟨x, by rw [hst.1] at hx; exact hx, rfl, rfl⟩, fun i r hr => ⟨r, by rw [hst.2] at hr; exact hr, rfl⟩⟩
+  refine ⟨fun x hx => ⟨x, by rw [hst.1] at hx; exact hx, rfl, rfl, rfl⟩, fun i r hr => ⟨r, by rw [hst.2] at hr; exact hr, rfl⟩⟩
 
 theorem Rel.raw_prev_rec {α} {m : M α} (hs : ∀ c, (m c).2.st.staged = c.st.staged)
     (hr : ∀ c, (m c).2.st.sequence.map (·.prev) = c.st.sequence.map (·.prev)) : Rel prevPre m := by
   constructor
   intro c
   show PrevStep c _
-  refine ⟨fun x hx => ⟨x, by rw [hs] at hx; exact hx, rfl, rfl⟩, ?_⟩
+  refine ⟨fun x hx => ⟨x, by rw [hs] at hx; exact hx, rfl, rfl, rfl⟩, ?_⟩
   intro i r' hr'
   have hmap := congrArg (·[i]?) (hr c)
   simp only [List.getElem?_map, hr'] at hmap
